@@ -31,11 +31,11 @@ CHECKS = {
  "C02": dict(engine="canon02", cat="exploration", design="DESIGN.md §4 C02",
    technique="seeded request histories through one reused storage/partition pair with interrupted (early-return) calls as faults, compared with fresh calls and a brute-force automorphism oracle",
    text="One CanonicalStorage/partition pair of tape-chosen capacity serves a seeded history of labelling requests (sizes up and down, interrupted viability calls left mid-search, vertex classes); each result must equal a fresh call, be a permutation, and match brute force (groups up to 60000 elements) (class-preserving where classes are given; plus identical canonical graph under class-respecting relabellings): orbits = orbits of Aut(g), every generator an automorphism, closure size = |Aut(g)|. Sampling, not proof.",
-   note="Tier B (history refinement); the interrupted call is the injected fault. n <= 16; brute-force oracle limited to |Aut(g)| <= 60000."),
+   note="Tier B (history refinement); the interrupted call is the injected fault. n <= 16 for random families, up to 28 for cheap and named symmetric families (showcase histories: one symmetric graph under fresh relabellings); class members listed in any order; brute-force oracle limited to |Aut(g)| <= 60000; a call over the step budget is abandoned without a verdict (counted)."),
  "C03": dict(engine="shard03", cat="exploration", design="DESIGN.md §4 C03",
    technique="multi-party simulation of the m search shards advanced in seeded interleavings; exactly-once/conservation over the joint history against an independent isomorphism-class enumeration",
    text="All configurations (n, m, predicate placement) in the tier's range are run with the m shard iterators advanced in a tape-chosen interleaving; every yielded value must be well formed and the multiset of independent canonical codes must equal the independently generated class set satisfying the predicate. Exhaustive over configurations at small n, sampled beyond.",
-   note="Independent IsoOracle (brute-force canonical code) shares no code with mamba; n <= 8 unpruned (9 in thorough), n <= 10 (11 in thorough) for strongly pruned families; split moduli up to 257."),
+   note="Independent IsoOracle (brute-force canonical code) shares no code with mamba; n <= 8 unpruned (9 in thorough), n <= 10 (11 in thorough) for strongly pruned families; n = 12, 13 for sparse families by pairwise isomorphism tests inside invariant buckets plus equal counts for both predicate placements; split moduli up to 257."),
  "C04": dict(engine="ckpt04", cat="fault_enumeration", design="DESIGN.md §4 C04",
    technique="crash/restart simulation: the iterator is abandoned and restored from its checkpoint at every position (enumerated for small n), with chains, forks and legal-but-unusual reader behaviour, compared with the uninterrupted run",
    text="A worker owns a search iterator; crash+restore from the newest checkpoint is injected after every k-th Next (all k for small configurations), plus seeded chains of save/load/advance and forks advanced alternately; the restored iterator must emit exactly the uninterrupted suffix, the original must be undisturbed and the two independent. Readers deliver one byte at a time / short reads / data with EOF.",
@@ -43,7 +43,7 @@ CHECKS = {
  "C19": dict(engine="sched19", cat="exploration", design="DESIGN.md §3.2, §4 C19",
    technique="deterministic goroutine scheduler over generated yield points (seeded preemption), Go race detector as happens-before monitor made blind to the scheduler's own synchronisation, solo-result oracle",
    text="The library is rebuilt with a yield at every function entry and loop head; 2-6 tasks (shards, labellers, iterators, Dawg queries, observers, clique producer/consumer...) run as goroutines of which exactly one holds the baton, and a seeded tape decides every preemption. Oracles: each task's result equals its solo result on fresh values, the race detector (which sees no happens-before between tasks) reports nothing, shared values are unchanged. Sampling over schedules, not proof.",
-   note="Serialised execution: weak-memory effects not needing a data race are out of reach; yields at function entries and loop heads only; race reports limited by the detector's history window (history_size=7)."),
+   note="Serialised execution: weak-memory effects not needing a data race are out of reach; yields at function entries, loop heads, lock/unlock, send/receive/select and before sync/atomic statements; sync.Once/WaitGroup/Pool of the tree replaced by yielding, deterministic stand-ins; workers run under GOMAXPROCS 16/1/2/4; blocking that is not rewritten ends in exit 2 (SIMULATOR-LIMIT); race reports limited by the detector's history window (history_size=7)."),
 }
 
 NA = {
